@@ -9,56 +9,56 @@ import (
 
 // named literals of coq/Harness/TransitionH.v (generated together with it)
 var namedStrings = map[string]string{
-	"a": "S_a",
-	"b": "S_b",
-	"c": "S_c",
-	"d": "S_d",
-	"e": "S_e",
-	"f": "S_f",
-	"g": "S_g",
-	"n1": "S_n1",
-	"n2": "S_n2",
-	"n9": "S_n9",
-	"u1": "S_u1",
-	"u2": "S_u2",
-	"zz": "S_zz",
-	"q": "S_q",
-	"root": "S_root",
-	"inner": "S_inner",
-	"inside": "S_inside",
+	"a":                    "S_a",
+	"b":                    "S_b",
+	"c":                    "S_c",
+	"d":                    "S_d",
+	"e":                    "S_e",
+	"f":                    "S_f",
+	"g":                    "S_g",
+	"n1":                   "S_n1",
+	"n2":                   "S_n2",
+	"n9":                   "S_n9",
+	"u1":                   "S_u1",
+	"u2":                   "S_u2",
+	"zz":                   "S_zz",
+	"q":                    "S_q",
+	"root":                 "S_root",
+	"inner":                "S_inner",
+	"inside":               "S_inside",
 	".mutagen-temporary-x": "S__2emutagen_2dtemporary_2dx",
-	"c1": "S_c1",
-	"c22": "S_c22",
-	"c333": "S_c333",
-	"": "S_empty",
-	"c4444": "S_c4444",
-	"xy": "S_xy",
-	"tmp": "S_tmp",
-	"n22": "S_n22",
-	"n333": "S_n333",
-	"s55555": "S_s55555",
-	"unknown": "S_unknown",
-	"deep": "S_deep",
-	"x": "S_x",
-	"was-a-directory": "S_was_2da_2ddirectory",
-	"c1+grown": "S_c1_2bgrown",
-	"c22+grown": "S_c22_2bgrown",
-	"c333+grown": "S_c333_2bgrown",
-	"+grown": "S__2bgrown",
-	"c4444+grown": "S_c4444_2bgrown",
-	"xy+grown": "S_xy_2bgrown",
-	"tmp+grown": "S_tmp_2bgrown",
-	"##": "S__23_23",
-	"###": "S__23_23_23",
-	"####": "S__23_23_23_23",
-	"#####": "S__23_23_23_23_23",
-	"t": "S_t",
-	"a/b": "S_a_2fb",
-	"../out": "S__2e_2e_2fout",
-	"/abs": "S__2fabs",
-	"a/../b": "S_a_2f_2e_2e_2fb",
-	"retargeted": "S_retargeted",
-	"elsewhere": "S_elsewhere",
+	"c1":                   "S_c1",
+	"c22":                  "S_c22",
+	"c333":                 "S_c333",
+	"":                     "S_empty",
+	"c4444":                "S_c4444",
+	"xy":                   "S_xy",
+	"tmp":                  "S_tmp",
+	"n22":                  "S_n22",
+	"n333":                 "S_n333",
+	"s55555":               "S_s55555",
+	"unknown":              "S_unknown",
+	"deep":                 "S_deep",
+	"x":                    "S_x",
+	"was-a-directory":      "S_was_2da_2ddirectory",
+	"c1+grown":             "S_c1_2bgrown",
+	"c22+grown":            "S_c22_2bgrown",
+	"c333+grown":           "S_c333_2bgrown",
+	"+grown":               "S__2bgrown",
+	"c4444+grown":          "S_c4444_2bgrown",
+	"xy+grown":             "S_xy_2bgrown",
+	"tmp+grown":            "S_tmp_2bgrown",
+	"##":                   "S__23_23",
+	"###":                  "S__23_23_23",
+	"####":                 "S__23_23_23_23",
+	"#####":                "S__23_23_23_23_23",
+	"t":                    "S_t",
+	"a/b":                  "S_a_2fb",
+	"../out":               "S__2e_2e_2fout",
+	"/abs":                 "S__2fabs",
+	"a/../b":               "S_a_2f_2e_2e_2fb",
+	"retargeted":           "S_retargeted",
+	"elsewhere":            "S_elsewhere",
 }
 
 var namedNumbers = map[uint64]bool{384: true, 416: true, 420: true, 448: true, 488: true, 493: true, 511: true, 4096: true, 33152: true, 33184: true, 33188: true, 33216: true, 33256: true, 33261: true, 33200: true, 33208: true, 33192: true}
